@@ -466,12 +466,24 @@ class Speller:
             bullet = self.pick('bullet', [c for c in ['-', '*', '+'] if ('ul', c) != avoid])
             self.last_list_type = ('ul', bullet)
         out = []
+        # a loose list needs ONE blank line between two items or between two blocks of an item: choose where
+        seps = [False] * len(items)
+        every_child = [False] * len(items)
+        if not tight:
+            seps = [i > 0 and rng.random() < 0.5 for i in range(len(items))]
+            every_child = [rng.random() < 0.5 for _ in items]
+            if not any(seps):
+                if len(items) > 1:
+                    seps[rng.randint(1, len(items) - 1)] = True
+                else:
+                    every_child[0] = True
+            self.pick('loose_by', ['items' if any(seps) else 'children'])
         for i, it in enumerate(items):
             marker = (str(start + i) + delim) if ordered else bullet
             pad = self.pick('marker_pad', [1, 1, 2, 3, 4])
             w = len(indent) + len(marker) + pad
-            inner = self.spell_item(it, tight, in_quote, None if ordered else bullet)
-            if i > 0 and not tight:
+            inner = self.spell_item(it, tight, in_quote, None if ordered else bullet, every_child[i])
+            if seps[i]:
                 out += [('', False)] * self.pick('item_blank', [1, 1, 2])
             for j, (l, lazy_ok) in enumerate(inner):
                 if j == 0:
@@ -486,9 +498,9 @@ class Speller:
         self.last_list_type = ('ol', delim) if ordered else ('ul', bullet)      # nested lists have overwritten it
         return out
 
-    def spell_item(self, blocks, tight, in_quote, bullet):
+    def spell_item(self, blocks, tight, in_quote, bullet, force_blank=True):
         if not tight:
-            return self.spell_blocks(blocks, in_quote=in_quote, first_in_item=True, bullet=bullet, force_blank=True)
+            return self.spell_blocks(blocks, in_quote=in_quote, first_in_item=True, bullet=bullet, force_blank=force_blank)
         # tight: no blank line between the item's blocks
         out = []
         for idx, blk in enumerate(blocks):
